@@ -155,6 +155,20 @@ func (c *child) canonFlushLast() {
 		}
 		c.count("canonical_cases|flushlast", 1)
 	}
+	// variant 3: the copy's data lives on the GPU that has the long write-back
+	// to do: the read must wait for it (the command processor holds copy
+	// requests back while cache flushes are outstanding)
+	th.fq = qOn(ng)
+	th.kernel(m, B.Off, B.Size/4, kern.OpAdd, 0x01000001, false)
+	th.drainAll()
+	th.fq = -1
+	th.d2h(m, B.Off+B.Size-2*pageSize-20, 2*pageSize+20, typeByName("[]byte"), true, "d2h", -1)
+	th.fq = (qOn(ng) + 1) % len(m.queues)
+	th.kernel(m, B.Off, B.Size/4, kern.OpXor, 0x00330033, false)
+	th.h2d(m, B.Off+B.Size-pageSize-9, 50, typeByName("[]byte"), false, "h2d")
+	th.d2h(m, B.Off+B.Size-3*pageSize, 3*pageSize, typeByName("[]uint32"), false, "d2h", -1)
+	th.drainAll()
+	c.count("canonical_cases|flushlast-same-gpu", 1)
 	// variant 2: the kernel is still running on GPU ng while a chain of small
 	// copies to GPU 1 is processed (each one flushes GPU ng in mid-kernel)
 	th.fq = qOn(ng)
@@ -331,6 +345,19 @@ func (c *child) canonStale() {
 		th.kernel(m, B.Off, B.Size/4, kern.OpXor, uint32(0xA0A0+round), false)
 		th.kernel(m, D.Off, D.Size/4, kern.OpAdd, 5, false)
 		th.d2h(m, B.Off+pageSize-64, 256, bt, false, "d2h", -1)
+		th.drainAll()
+		// kernel, then H2D into its dirty range with no copy in between, then
+		// (a) D2H, (b) another kernel and D2H
+		th.fq = q
+		th.kernel(m, B.Off, B.Size/4, kern.OpAdd, uint32(0x10001+round), false)
+		if round%2 == 0 {
+			th.drainAll()
+		}
+		th.h2d(m, B.Off+2*pageSize-17, 90, bt, false, "h2d")
+		if round%3 != 0 {
+			th.kernel(m, B.Off+pageSize, pageSize/2, kern.OpXor, uint32(0x77+round), false)
+		}
+		th.d2h(m, B.Off+pageSize, 2*pageSize, bt, false, "d2h", -1)
 		th.drainAll()
 		c.count("canonical_cases|stale", 1)
 	}
